@@ -54,6 +54,15 @@ _add("SmVerif.Tie.Serialize", "RsSerialize", [
     "SmVerif.Tie.tie_encode_rmi", "SmVerif.Tie.encode_rmi_nil",
     "SmVerif.Tie.tie_serialize_range_mappings", "SmVerif.Tie.serialize_range_mappings_ok", "SmVerif.Tie.tie_serialize_range_mappings_any",
     "SmVerif.Tie.tie_serialize_range_mappings_unsorted", "SmVerif.Tie.tie_serialize_range_mappings_diverge"])
+_T = "SmVerif.Tie."
+_add("SmVerif.Tie.RamBundle", "RsRamBundle", [_T + n for n in
+    "tie_ram_magic tie_le32 tie_pread_u32s tie_pread_bytes tie_ram_parse parse_ok_bounds tie_ram_module_count tie_ram_startup_code tie_ram_get_module tie_ram_get_module_parsed tie_is_ram_bundle_slice_any gen_c20_recognise gen_c20_parse_iff gen_c20_parse_refused gen_c20_total gen_c20_in_bounds gen_c20_parse_layout gen_c20_get_module_layout gen_c20_past_table_layout gen_c20_parse_serialize gen_c20_get_module gen_c20_past_table".split()])
+_add("SmVerif.Tie.SourceView", "RsSourceView", [_T + "SourceView." + n for n in
+    "tie_len_utf8 tie_len_utf16 tie_chars tie_is_char_boundary tie_str_get tie_get_line_slice tie_get_line_slice_skipped tie_get_line_slice_bytes tie_get_line_slice_diverge tie_get_line_slice_no_panic gen_c15_slice gen_c15_slice_midpair gen_c15_slice_view gen_c15_slice_midpair_view".split()])
+_add("SmVerif.Tie.Detect", "RsDetector", [_T + "Detect." + n for n in
+    "tie_lines_aux tie_lines_total tie_lines tie_trim locate_total tie_locate_sourcemap_reference locate_error_is_io locate_invalid_utf8 valid_hypothesis_needed locate_before_invalid gen_c18_locate gen_c18_first_line gen_c18_none_iff gen_c18_legacy_iff gen_c18_embedded".split()])
+_add("SmVerif.Tie.Detect", "RsDetectCommon", [_T + "Detect." + n for n in "tie_is_sourcemap_common gen_c18_detects_serialised gen_c18_detects_serialised'".split()])
+_add("SmVerif.Tie.Prefix", "RsPrefix", [_T + "Prefix.tie_prefix_source", _T + "Prefix.prefix_source_total"])
 # property theorems restated about the generated code (compositions property o tie)
 _P = "SmVerif.Tie.Props."
 _add("SmVerif.Tie.Props", "RsVlq", [_P + n for n in [
@@ -70,14 +79,18 @@ _add("SmVerif.Tie.Props2", "RsDecoder", [_P + n for n in [
 # which tie modules speak about code a property's theorems depend on
 PROP_MODULES = {
     "C01": ["SmVerif.Tie.Vlq", "SmVerif.Tie.Decode", "SmVerif.Tie.Serialize"],
-    "C02": ["SmVerif.Tie.Vlq", "SmVerif.Tie.Decode", "SmVerif.Tie.Props"],
+    "C02": ["SmVerif.Tie.Vlq", "SmVerif.Tie.Decode", "SmVerif.Tie.Props", "SmVerif.Tie.Prefix"],
     "C03": ["SmVerif.Tie.Vlq", "SmVerif.Tie.Serialize"],
     "C04": ["SmVerif.Tie.Lookup", "SmVerif.Tie.Props"],
-    "C05": ["SmVerif.Tie.Vlq", "SmVerif.Tie.Header", "SmVerif.Tie.Decode", "SmVerif.Tie.Lookup", "SmVerif.Tie.Hermes", "SmVerif.Tie.Serialize", "SmVerif.Tie.Props"],
+    "C05": ["SmVerif.Tie.Vlq", "SmVerif.Tie.Header", "SmVerif.Tie.Decode", "SmVerif.Tie.Lookup", "SmVerif.Tie.Hermes", "SmVerif.Tie.Serialize", "SmVerif.Tie.Props", "SmVerif.Tie.SourceView", "SmVerif.Tie.Detect", "SmVerif.Tie.RamBundle"],
     "C06": ["SmVerif.Tie.Vlq", "SmVerif.Tie.Decode", "SmVerif.Tie.Props"],
     "C07": ["SmVerif.Tie.Vlq", "SmVerif.Tie.Small", "SmVerif.Tie.Decode", "SmVerif.Tie.Lookup", "SmVerif.Tie.Serialize", "SmVerif.Tie.Props"],
     "C11": ["SmVerif.Tie.Vlq", "SmVerif.Tie.Props"],
     "C12": ["SmVerif.Tie.Header", "SmVerif.Tie.Props2"],
+    "C13": ["SmVerif.Tie.Prefix"],
+    "C15": ["SmVerif.Tie.SourceView"],
+    "C18": ["SmVerif.Tie.Detect"],
+    "C20": ["SmVerif.Tie.RamBundle"],
     "C14": ["SmVerif.Tie.Vlq", "SmVerif.Tie.Hermes", "SmVerif.Tie.Props"],
     "C17": ["SmVerif.Tie.Lookup"],
     "C19": ["SmVerif.Tie.Paths"],
